@@ -112,6 +112,37 @@ V("c04-dotrot-wrong-axis", "C04", "violation", "C04.R3", edits=[(MA, "    return
 V("c04-n-sez2ecef-as-transpose", "C04", "pass", edits=[(TM, "sez_2_ecef_rotation = matmul(rot3(-lon), rot2(lat - const.PI / 2))", "sez_2_ecef_rotation = matmul(rot2(const.PI / 2 - lat), rot3(lon)).T")])
 V("c04-n-neg-form", "C04", "pass", edits=[(TM, "sez_2_ecef_rotation = matmul(rot3(-lon), rot2(lat - const.PI / 2))", "sez_2_ecef_rotation = matmul(rot3(-lon), rot2(-(const.PI / 2 - lat)))")])
 V("c04-n-matmul-operator", "C04", "pass", edits=[(TM, "r_ecef = matmul(reduction.rot_wt, matmul(reduction.rot_rnp, x_eci[:3]))", "r_ecef = reduction.rot_wt @ (reduction.rot_rnp @ x_eci[:3])")])
+PM = "physics/measurements.py"
+V("c04-az-args-swapped", "C04", "violation", "C04.R10", edits=[(PM, "        azimuth = arctan2(slant_range_sez[1], -1.0 * slant_range_sez[0])", "        azimuth = arctan2(-1.0 * slant_range_sez[0], slant_range_sez[1])")])
+V("c04-az-sign-lost", "C04", "violation", "C04.R10", edits=[(PM, "        azimuth = arctan2(slant_range_sez[1], -1.0 * slant_range_sez[0])", "        azimuth = arctan2(slant_range_sez[1], slant_range_sez[0])")])
+V("c04-az-zenith-wrong-slot", "C04", "violation", "C04.R10", edits=[(PM, "        azimuth = arctan2(slant_range_sez[4], -1.0 * slant_range_sez[3])", "        azimuth = arctan2(slant_range_sez[4], -1.0 * slant_range_sez[5])")])
+V("c04-az-not-wrapped", "C04", "violation", "C04.R10", edits=[(PM, "    return wrapAngle2Pi(azimuth)", "    return azimuth")])
+V("c04-el-from-arccos", "C04", "violation", "C04.R10", edits=[(PM, "    return arcsin(slant_range_sez[2] / norm(slant_range_sez[:3]))", "    return arcsin(slant_range_sez[1] / norm(slant_range_sez[:3]))")])
+V("c04-range-full-vector", "C04", "violation", "C04.R10", edits=[(PM, "    return norm(slant_range_sez[:3])", "    return norm(slant_range_sez)")])
+V("c04-range-rate-by-speed", "C04", "violation", "C04.R10", edits=[(PM, "    return vdot(slant_range_sez[:3], slant_range_sez[3:]) / getRange(slant_range_sez)", "    return vdot(slant_range_sez[:3], slant_range_sez[3:]) / norm(slant_range_sez[3:])")])
+V("c04-c2s-phi-swapped", "C04", "violation", "C04.R10", edits=[(TM, "        phi = arctan2(r_j / temp1, r_i / temp1)", "        phi = arctan2(r_i / temp1, r_j / temp1)")])
+V("c04-c2s-phi-mixed-scale", "C04", "violation", "C04.R10", edits=[(TM, "        phi = arctan2(r_j / temp1, r_i / temp1)", "        phi = arctan2(r_j / temp1, r_i / rng)")])
+V("c04-c2s-phidot-sign", "C04", "violation", "C04.R10", edits=[(TM, "        phi_dot = (v_i * r_j - v_j * r_i) / (-(r_j**2) - r_i**2)", "        phi_dot = (v_i * r_j - v_j * r_i) / (r_j**2 + r_i**2)")])
+V("c04-c2s-thetadot-term", "C04", "violation", "C04.R10", edits=[(TM, "        theta_dot = (v_k - rng_dot * temp3) / temp1", "        theta_dot = (v_k - rng_dot * temp3) / rng")])
+V("c04-c2s-return-order", "C04", "violation", "C04.R10", edits=[(TM, "    return rng, theta, wrapAngle2Pi(phi), rng_dot, theta_dot, phi_dot", "    return rng, wrapAngle2Pi(phi), theta, rng_dot, phi_dot, theta_dot")])
+V("c04-s2c-velocity-term-sign", "C04", "violation", "C04.R10", edits=[(TM, "            rho_dot * c_th * s_phi - rho * s_th * s_phi * theta_dot + rho * c_th * c_phi * phi_dot,", "            rho_dot * c_th * s_phi - rho * s_th * s_phi * theta_dot - rho * c_th * c_phi * phi_dot,")])
+V("c04-s2c-z-from-cos", "C04", "violation", "C04.R10", edits=[(TM, "            rho * s_th,\n", "            rho * c_th,\n")])
+V("c04-n-c2s-phi-unscaled", "C04", "pass", edits=[(TM, "        phi = arctan2(r_j / temp1, r_i / temp1)", "        phi = arctan2(r_j, r_i)")])
+V("c04-n-c2s-phidot-tidy", "C04", "pass", edits=[(TM, "        phi_dot = (v_i * r_j - v_j * r_i) / (-(r_j**2) - r_i**2)", "        phi_dot = (r_i * v_j - r_j * v_i) / (r_i**2 + r_j**2)")])
+V("c04-n-c2s-thetadot-regrouped", "C04", "pass", edits=[(TM, "        theta_dot = (v_k - rng_dot * temp3) / temp1", "        theta_dot = (v_k - r_k * rng_dot / rng) / temp1")])
+V("c04-n-az-neg-literal", "C04", "pass", edits=[(PM, "        azimuth = arctan2(slant_range_sez[1], -1.0 * slant_range_sez[0])", "        azimuth = arctan2(slant_range_sez[1], -slant_range_sez[0])")])
+V("c04-n-range-rate-norm", "C04", "pass", edits=[(PM, "    return vdot(slant_range_sez[:3], slant_range_sez[3:]) / getRange(slant_range_sez)", "    return vdot(slant_range_sez[:3], slant_range_sez[3:]) / norm(slant_range_sez[:3])")])
+V("c04-n-s2c-factored", "C04", "pass", edits=[(TM, "            rho_dot * c_th * s_phi - rho * s_th * s_phi * theta_dot + rho * c_th * c_phi * phi_dot,", "            s_phi * (rho_dot * c_th - rho * s_th * theta_dot) + rho * c_th * c_phi * phi_dot,")])
+V("c04-ntw-left-handed", "C04", "violation", "C04.R9", edits=[(TM, "n_hat: ndarray[float, float, float] = cross(t_hat, w_hat)", "n_hat: ndarray[float, float, float] = cross(w_hat, t_hat)")])
+V("c04-ntw-t-from-position", "C04", "violation", "C04.R9", edits=[(TM, "t_hat: ndarray[float, float, float] = x_eci[3:] / norm(x_eci[3:])", "t_hat: ndarray[float, float, float] = x_eci[:3] / norm(x_eci[:3])")])
+V("c04-ntw-not-transposed", "C04", "violation", "C04.R9", edits=[(TM, "ntw_2_eci_rotation = array([n_hat, t_hat, w_hat]).T", "ntw_2_eci_rotation = array([n_hat, t_hat, w_hat])")])
+V("c04-ntw-rows-reordered", "C04", "violation", "C04.R9", edits=[(TM, "ntw_2_eci_rotation = array([n_hat, t_hat, w_hat]).T", "ntw_2_eci_rotation = array([t_hat, n_hat, w_hat]).T")])
+V("c04-ntw-velocity-by-position-slot", "C04", "violation", "C04.R9", edits=[(TM, "matmul(ntw_2_eci_rotation, x_ntw[3:]),  # Convert velocity", "matmul(ntw_2_eci_rotation, x_ntw[:3]),  # Convert velocity")])
+V("c04-rsw2eci-w-reversed", "C04", "violation", "C04.R9", edits=[(TM, "    w_hat: ndarray[float, float, float] = cross(x_eci[:3], x_eci[3:]) / norm(\n        cross(x_eci[:3], x_eci[3:]),\n    )\n    s_hat: ndarray[float, float, float] = cross(w_hat, r_hat)\n\n    rsw_2_eci_rotation", "    w_hat: ndarray[float, float, float] = cross(x_eci[3:], x_eci[:3]) / norm(\n        cross(x_eci[3:], x_eci[:3]),\n    )\n    s_hat: ndarray[float, float, float] = cross(w_hat, r_hat)\n\n    rsw_2_eci_rotation")])
+V("c04-rsw2eci-s-along-velocity", "C04", "violation", "C04.R9", edits=[(TM, "    s_hat: ndarray[float, float, float] = cross(w_hat, r_hat)\n\n    rsw_2_eci_rotation", "    s_hat: ndarray[float, float, float] = x_eci[3:] / norm(x_eci[3:])\n\n    rsw_2_eci_rotation")])
+V("c04-ntw-w-unnormalised-norm-of-other", "C04", "violation", "C04.R9", edits=[(TM, "    w_hat: ndarray[float, float, float] = cross(x_eci[:3], x_eci[3:]) / norm(\n        cross(x_eci[:3], x_eci[3:]),\n    )\n    n_hat", "    w_hat: ndarray[float, float, float] = cross(x_eci[:3], x_eci[3:]) / norm(\n        x_eci[:3],\n    )\n    n_hat")])
+V("c04-n-ntw-named-h", "C04", "pass", edits=[(TM, "    t_hat: ndarray[float, float, float] = x_eci[3:] / norm(x_eci[3:])\n    w_hat: ndarray[float, float, float] = cross(x_eci[:3], x_eci[3:]) / norm(\n        cross(x_eci[:3], x_eci[3:]),\n    )\n    n_hat", "    t_hat: ndarray[float, float, float] = x_eci[3:] / norm(x_eci[3:])\n    ang_mom = cross(x_eci[:3], x_eci[3:])\n    w_hat: ndarray[float, float, float] = ang_mom / norm(ang_mom)\n    n_hat")])
+V("c04-n-ntw-transpose-call", "C04", "pass", edits=[(TM, "ntw_2_eci_rotation = array([n_hat, t_hat, w_hat]).T", "ntw_2_eci_rotation = transpose(array([n_hat, t_hat, w_hat]))"), (TM, "from numpy import (\n", "from numpy import (\n    transpose,\n")])
 
 # ------------------------------------------------------------------------------------ C06
 UK = "estimation/kalman/unscented_kalman_filter.py"
@@ -313,6 +344,14 @@ V("c18-n-inplace-division", "C18", "pass", edits=[(ADF, "        self.model_weig
 
 # ------------------------------------------------------------------------------------ C15
 FTF = "dynamics/integration_events/finite_thrust.py"
+V("c15-spiral-on-radial-axis", "C15", "violation", "C15.R5", edits=[(FTF, "    delta_a = array([0, magnitude, 0])\n", "    delta_a = array([magnitude, 0, 0])\n")])
+V("c15-plane-change-hemisphere-flipped", "C15", "violation", "C15.R5", edits=[(FTF, "if state[2] >= 0 else array([0, 0, -magnitude])", "if state[2] < 0 else array([0, 0, -magnitude])")])
+V("c15-plane-change-no-sign", "C15", "violation", "C15.R5", edits=[(FTF, "    delta_a = array([0, 0, magnitude]) if state[2] >= 0 else array([0, 0, -magnitude])\n", "")])
+V("c15-ntw-burn-in-velocity-slots", "C15", "violation", "C15.R5", edits=[(FTF, "    full_a_vec = concatenate((acc_vector, zeros(3)))", "    full_a_vec = concatenate((zeros(3), acc_vector))")])
+V("c15-eci-burn-negated", "C15", "violation", "C15.R5", edits=[(FTF, "    return concatenate((acc_vector, zeros(3)))", "    return concatenate((-acc_vector, zeros(3)))")])
+V("c15-ntw-triad-left-handed", "C15", "violation", "C15.R6", edits=[("physics/transforms/methods.py", "n_hat: ndarray[float, float, float] = cross(t_hat, w_hat)", "n_hat: ndarray[float, float, float] = cross(w_hat, t_hat)")])
+V("c15-n-ntw-burn-inline", "C15", "pass", edits=[(FTF, "    full_a_vec = concatenate((acc_vector, zeros(3)))\n    return ntw2eci(state, full_a_vec)", "    return ntw2eci(state, concatenate((acc_vector, zeros(3))))")])
+V("c15-n-plane-change-if-statement", "C15", "pass", edits=[(FTF, "    delta_a = array([0, 0, magnitude]) if state[2] >= 0 else array([0, 0, -magnitude])\n", "    if state[2] >= 0:\n        delta_a = array([0, 0, magnitude])\n    else:\n        delta_a = array([0, 0, -magnitude])\n")])
 CLF = "dynamics/celestial.py"
 V("c15-revert-F13-twobody-thrust", "C15", "violation", "C15.R3", revert="43d5466")
 V("c15-revert-F15-restart-increment", "C15", "violation", "C15.R4", revert="40f63cb")
@@ -519,3 +558,9 @@ for _name in sorted(_os.listdir(_NEUTRAL)) if _os.path.isdir(_NEUTRAL) else []:
         continue
     _meta = _json.load(open(_mp))
     V(f"neutral-{_name}", "ALL", _meta.get("expect", "pass"), patch=f"neutral/{_name}/patch.diff", note="behaviour-preserving refactoring from a sub-agent; every property's check must stay quiet")
+
+# ------------------------------------------------------------------------------------ shared spherical-model rule under C02 / C20
+V("c02-az-sign-lost", "C02", "violation", "C02.R11", edits=[("physics/measurements.py", "        azimuth = arctan2(slant_range_sez[1], -1.0 * slant_range_sez[0])", "        azimuth = arctan2(slant_range_sez[1], slant_range_sez[0])")])
+V("c02-el-wrong-component", "C02", "violation", "C02.R11", edits=[("physics/measurements.py", "    return arcsin(slant_range_sez[2] / norm(slant_range_sez[:3]))", "    return arcsin(slant_range_sez[1] / norm(slant_range_sez[:3]))")])
+V("c20-az-args-swapped", "C20", "violation", "C20.R5", edits=[("physics/measurements.py", "        azimuth = arctan2(slant_range_sez[1], -1.0 * slant_range_sez[0])", "        azimuth = arctan2(-1.0 * slant_range_sez[0], slant_range_sez[1])")])
+V("c20-s2c-y-from-cos", "C20", "violation", "C20.R5", edits=[("physics/transforms/methods.py", "            rho * c_th * s_phi,\n", "            rho * c_th * c_phi,\n")])
